@@ -192,6 +192,7 @@ func (s *Sess) Do(c *Ctx, o EOp) string {
 func StartCaseQuiet(ms *MSpec, o CaseOpts) *Sess {
 	s := &Sess{Customs: map[string]string{}, MS: ms}
 	s.A = mem.New()
+	s.A.Lines = append(s.A.Lines, o.ALines...)
 	e, err := casbin.NewEnforcer(ms.Build(), s.A)
 	if err != nil {
 		panic(err)
